@@ -141,6 +141,7 @@ func injectBuiltInProps(
 	injectProps(object.BuiltInEitherErrObj, toPairs(props.EitherErrProps(ctn)), eitherErrNatives)
 	injectProps(object.BuiltInEitherValObj, toPairs(props.EitherValProps(ctn)), eitherValNatives)
 	injectProps(object.BuiltInErrObj, toPairs(props.ErrProps(ctn)))
+	injectProps(object.BuiltInFileNotFoundErr, toPairs(props.FileNotFoundErrProps(ctn)))
 	injectProps(object.BuiltInFloatObj, toPairs(props.FloatProps(ctn)), floatNatives, iterableNatives, comparableNatives)
 	injectProps(object.BuiltInFuncObj, toPairs(props.FuncProps(ctn)), funcNatives)
 	injectProps(object.BuiltInIntObj, toPairs(props.IntProps(ctn)), intNatives, iterableNatives, comparableNatives)
